@@ -3,7 +3,7 @@
    send_only=True) of a transmitter whose TX FIFO is empty, in any world whose other radios do not transmit.
    force_retry > 0, resend(), ACK-payload results (send_only=False), list arguments, a non-empty TX FIFO and the
    time bound are decided by the correspondence run with the loss oracle and its fate checker (corr/c02.py). *)
-From Coq Require Import ZArith NArith List Bool.
+From Coq Require Import ZArith NArith List Bool Lia.
 From NRF Require Import Env.Radio Env.World Env.RadioFacts Env.WorldFacts Env.WfFacts Env.QuietFacts Drv.RF24 Drv.SendFacts.
 Import ListNotations.
 Local Open Scope N_scope.
@@ -47,3 +47,20 @@ Theorem C02_exchange_outcome : forall w si e rest,
     /\ cview s' = cview (get_radio w si).
 Proof. exact exchange_transmitter. Qed.
 Print Assumptions C02_exchange_outcome.
+
+(* non-vacuity: a two-radio world straight after power-up in which radio 0 has been put in TX mode meets the
+   hypotheses of C02_send_truth; with nobody listening the theorem's send() evaluates to False *)
+Definition ex_world : world := set_radio (new_world [true; true] []) 0 (set_sreg (reset_radio true) 0 14).
+Example C02_hypotheses_satisfiable :
+  Q 0 ex_world /\ AllWf ex_world /\ pwr_up (get_radio ex_world 0) = true /\ prim_rx (get_radio ex_world 0) = false
+  /\ tx_fifo (get_radio ex_world 0) = [] /\ st_bit init_drv 16 = false /\ st_bit init_drv 1 = false
+  /\ (exists b, norm_payload init_drv [1; 2; 3] = Ok b)
+  /\ fst (fst (send (WB 0) [1; 2; 3] false 0 true 1 init_drv ex_world)) = Ok (SBool false).
+Proof.
+  repeat split; try reflexivity.
+  - intros j Hj. destruct j as [|[|j]]; [contradiction|reflexivity|]. unfold get_radio, ex_world. cbn. destruct j; reflexivity.
+  - cbn. auto.
+  - unfold AllWf, ex_world. cbn [radios set_radio new_world map set_nth_radio].
+    repeat constructor; cbn; lia.
+  - eexists. vm_compute. reflexivity.
+Qed.
